@@ -38,7 +38,7 @@ ANCHORS = [
     "acnportal.acnsim.interface:Interface.allowable_pilot_signals",
 ]
 REQUIRED = ["set_pilot_judged", "accepted", "rejected", "regime:EVSE", "regime:DeadbandEVSE", "regime:FiniteRatesEVSE",
-            "rejected_with_ev_state_checked", "non_finite_pilots_judged", "pilot_equals_current", "pilot_exact_zero", "pilot_repeated", "replug_between_pilots",
+            "rejected_with_ev_state_checked", "non_finite_pilots_judged", "pilots_of_magnitude_over_1e5_judged", "pilot_equals_current", "pilot_exact_zero", "pilot_repeated", "replug_between_pilots",
             "advertised_values_applied", "suite:set_pilot_judged", "advertised_after_json", "plugin_occupied_refused", "plugin_occupied_same_session_id_refused"]
 BUDGET_S = {"quick": 200, "thorough": 2400}
 OFFS = [0, 1e-6, 5e-4, 9.99e-4, 1.001e-3, 2e-3, 0.5, 3]
@@ -97,9 +97,13 @@ def _after(ctx, result, exc):
         obs.ev("non_finite_pilots_judged")
     else:
         ok_exp, dist = oracles.evse_accepts(d, pf)
-    if dist < F(1, 10 ** 9):
+    # guard band: 1e-9 A, widened to a few units in the last place for pilots of astronomical size (the code adds the
+    # tolerance in floating point)
+    if dist < max(F(1, 10 ** 9), abs(F(pf)) / 2 ** 49 if math.isfinite(pf) else 0):
         obs.boundary += 1
         return
+    if math.isfinite(pf) and abs(pf) >= 1e5:
+        obs.ev("pilots_of_magnitude_over_1e5_judged")
     accepted = exc is None
     obs.ev("set_pilot_judged")
     obs.ev("accepted" if accepted else "rejected")
@@ -135,11 +139,14 @@ def worker_init():
 def _rand_evse(rng):
     k = rng.choice(["EVSE", "DB", "FR"])
     if k == "EVSE":
-        return {"t": "EVSE", "min": rng.choice([0, 0, 6, 2.5]), "max": rng.choice([16, 32, 80, float("inf"), 7.3])}
+        return {"t": "EVSE", "min": rng.choice([0, 0, 6, 2.5]), "max": rng.choice([16, 32, 80, float("inf"), 7.3, 4e6, 1e9])}
     if k == "DB":
-        return {"t": "DB", "end": rng.choice([6, 4.5, 8]), "max": rng.choice([16, 32, float("inf")])}
+        return {"t": "DB", "end": rng.choice([6, 4.5, 8]), "max": rng.choice([16, 32, float("inf"), 2.5e6])}
     r = rng.random()
-    if r < 0.25:
+    if r < 0.06:
+        # stand-ins for "unlimited" in an on/off list, very small rates: the 1e-3 A band is absolute at every magnitude
+        rates = rng.choice([[0, 4e6], [0, 1e9], [1e7, 32, 0], [0.002, 0.0045, 6], [0, 123456.789]])
+    elif r < 0.25:
         rates = [0, 8, 16, 24, 32]
     elif r < 0.4:
         rates = [32, 8, 8, 16]
